@@ -53,21 +53,21 @@ type c07Red struct {
 }
 
 type c07Sc struct {
-	Class      string   `json:"class"`
-	Entry      string   `json:"entry"` // MapReduce MapReduceVoid MapReduceChan ForEach Finish FinishVoid
-	N          int      `json:"n"`
-	Workers    int      `json:"workers"` // 0 = option absent (16), >0 WithWorkers(w), <0 WithWorkers(0) (=1)
-	Items      []c07It  `json:"items,omitempty"`
-	Red        c07Red   `json:"red"`
-	Ctx        string   `json:"ctx,omitempty"` // "" | live | pre ; mid-run cancellation is an item act
-	GenPanicAt int      `json:"gen_panic_at"`  // -1 none, else the generator panics after sending that many items
-	GenWait    string   `json:"gen_wait,omitempty"`
-	Saturate   bool     `json:"saturate,omitempty"` // mappers linger to overlap as much as the pool allows
+	Class      string  `json:"class"`
+	Entry      string  `json:"entry"` // MapReduce MapReduceVoid MapReduceChan ForEach Finish FinishVoid
+	N          int     `json:"n"`
+	Workers    int     `json:"workers"` // 0 = option absent (16), >0 WithWorkers(w), <0 WithWorkers(0) (=1)
+	Items      []c07It `json:"items,omitempty"`
+	Red        c07Red  `json:"red"`
+	Ctx        string  `json:"ctx,omitempty"` // "" | live | pre ; mid-run cancellation is an item act
+	GenPanicAt int     `json:"gen_panic_at"`  // -1 none, else the generator panics after sending that many items
+	GenWait    string  `json:"gen_wait,omitempty"`
+	Saturate   bool    `json:"saturate,omitempty"` // mappers linger to overlap as much as the pool allows
 	// Probe: the last item is a probe: when its send completes gate "px" is closed and the generator waits for "rw"
 	Probe bool `json:"probe,omitempty"`
 	// OutVal selects what the reducer writes: "" (a tagged struct) | nil | int0 | empty-string | false | nil-ptr | empty-struct
-	OutVal string `json:"out_val,omitempty"`
-	Expect     []string `json:"expect,omitempty"`   // exact legal outcome keys (gated); nil = generic racing rule
+	OutVal string   `json:"out_val,omitempty"`
+	Expect []string `json:"expect,omitempty"` // exact legal outcome keys (gated); nil = generic racing rule
 	// ExpectOrdered replaces Expect when the stamps confirm that every panic was raised strictly after
 	// the reducer's first Write had returned and after the generator function (source feeder) had returned.
 	ExpectOrdered []string `json:"expect_ordered,omitempty"`
